@@ -18,6 +18,8 @@ use deno_ast::diagnostics::DiagnosticSourceRange;
 
 mod cache;
 mod range_finder;
+#[cfg(denoland_deno_graph_verif)]
+pub use range_finder::verif;
 mod swc_helpers;
 mod transform;
 mod transform_dts;
